@@ -88,15 +88,19 @@ CHECKS = {
         technique="Coq proof (counter invariants; refutation witness by vm_compute) + scripted-policy tie + oracle",
         ref="6 C06"),
     "C07": dict(
-        text="Coq: an attempt is accepted iff error < 1 or H < h_min, never on a NaN/Inf norm, for every policy set and "
-             "history (C07_accept_iff...). Controller formulas (first H, growth clamp, no growth after rejection, fixed cut "
-             "after repeated rejections, max-steps guard, BE reductions/doubling) are the model's definitions, compared "
-             "exactly with the real templates over every accept/reject word; NormalizedError and IsConverged are modelled "
-             "slot by slot for both layouts and compared with the real functions on every shape incl. partial groups and "
-             "per-species tolerances. Oracle: step-size clauses on the H sequence recovered from the implementation's own calls.",
-        note="PARTIAL proof: bounds on H and the RMS form of the error norm are validated (tie + oracle), not yet theorems. "
+        text="Coq: (1) an attempt is accepted iff error < 1 or H < h_min, never on a NaN/Inf norm, for every policy set and "
+             "history (C07_accept_iff...); (2) the storage slots NormalizedError and IsConverged visit, as coded (whole groups "
+             "with tolerance index (i/L) mod n, then the trailing partial group), are exactly the real (cell, species) "
+             "elements, each once, each with its species' tolerance, for every L, cell count and species count "
+             "(C07_error_norm_visits_every_element_once), hence the norm is the documented RMS (C07_error_norm_is_rms) and "
+             "IsConverged tests every element (C07_is_converged_tests_every_element). Controller formulas (first H, growth "
+             "clamp, no growth after rejection, fixed cut after repeated rejections, max-steps guard, BE reductions/doubling) "
+             "are the model's definitions, compared exactly with the real templates over every accept/reject word; "
+             "NormalizedError and IsConverged are compared with the real functions on every shape incl. partial groups. "
+             "Oracles: controller formula, h_max / remaining interval, repeated-rejection cut, BE step-size bookkeeping.",
+        note="PARTIAL proof: bounds on the H sequence are validated (tie + oracle), not theorems. "
              "Known finding: h_max <= 10*round_off is overridden by the DELTA_MIN guard.",
-        technique="Coq proof (accept rule invariant) + scripted-policy exact tie + oracle",
+        technique="Coq proof (accept-rule invariant; permutation of visited slots; RMS) + scripted-policy exact tie + oracles",
         ref="6 C07"),
     "C08": dict(
         text="Coq theorems by vm_compute over exact rationals on the five coefficient tables regenerated from /repo's "
